@@ -581,6 +581,17 @@ def evaluate(env: Env, e: ast.AST) -> Any:
     if isinstance(e, ast.Tuple):
         return Tup([evaluate(env, x) for x in e.elts])
     if isinstance(e, ast.List):
+        if any(isinstance(x, ast.Starred) for x in e.elts):
+            total = Lin.c(sum(1 for x in e.elts if not isinstance(x, ast.Starred)))
+            elem: Any = Opaque("elem")
+            for x in e.elts:
+                if isinstance(x, ast.Starred):
+                    v = evaluate(env, x.value)
+                    if not (isinstance(v, SeqV) and isinstance(v.length, Lin)):
+                        return Opaque("list display with an unpacked iterable of unknown length")
+                    total = total + v.length
+                    elem = v.elem
+            return SeqV(total, elem, "list")
         return SeqV(Lin.c(len(e.elts)), evaluate(env, e.elts[0]) if e.elts else Opaque("elem"), "list")
     if isinstance(e, ast.Subscript):
         for h in env.sub_hooks:
